@@ -187,13 +187,32 @@ def _collect_history(R, procs, plan, timeout, ref=None):
 
 
 # ------------------------------------------------------------------------------- argument / result aliasing (core)
+class _LibObj(object):
+    """a library object found in a result: what a caller edits is its attribute dictionary"""
+
+    def __init__(self, obj):
+        self.obj = obj
+
+
+def _is_lib_obj(x):
+    """Note objects standing directly in a returned list: values the call worked out (a registry hands out its registered
+    objects by design - get_tunings - and those are not touched, nor is anything behind another object's attributes)"""
+    return type(x).__module__ == "mingus.containers.note" and type(x).__name__ == "Note"
+
+
 def _mutables(x, acc, seen):
-    """list / dict objects reachable from x through lists, tuples and dicts"""
+    """list / dict objects - and library objects (Notes, containers) - reachable from x through lists, tuples, dicts"""
     if isinstance(x, (list, dict)):
         if id(x) in seen:
             return
         seen.add(id(x))
         acc.append(x)
+    elif _is_lib_obj(x):
+        if id(x) in seen:
+            return
+        seen.add(id(x))
+        acc.append(_LibObj(x))
+        return
     if isinstance(x, (list, tuple)):
         for e in x:
             _mutables(e, acc, seen)
@@ -203,9 +222,19 @@ def _mutables(x, acc, seen):
 
 
 def _mutate(ms):
-    saved = [(m, list(m) if isinstance(m, list) else dict(m)) for m in ms]
+    saved = [(m, dict(vars(m.obj)) if isinstance(m, _LibObj) else list(m) if isinstance(m, list) else dict(m)) for m in ms]
     for m in ms:
-        if isinstance(m, list):
+        if isinstance(m, _LibObj):
+            # what a caller does to a Note it was given: another octave, another name, louder
+            d = vars(m.obj)
+            for k, v in list(d.items()):
+                if isinstance(v, bool):
+                    continue
+                if isinstance(v, int):
+                    d[k] = v + 3
+                elif isinstance(v, str) and k == "name":
+                    d[k] = "D" if v != "D" else "E"
+        elif isinstance(m, list):
             if m:
                 m[0] = "Zz"
             m.append("Xx")
@@ -216,7 +245,10 @@ def _mutate(ms):
 
 def _restore(saved):
     for m, old in saved:
-        if isinstance(m, list):
+        if isinstance(m, _LibObj):
+            vars(m.obj).clear()
+            vars(m.obj).update(old)
+        elif isinstance(m, list):
             m[:] = old
         else:
             m.clear()
